@@ -297,9 +297,6 @@ def run_algo(pid, algo, tier, seed):
         if "ZONE_CoincidentCentres" in clauses:
             clauses = clauses - {"ZONE_CoincidentCentres"}
             key = "mpr:coincident-centres"
-        elif "ZONE_Grazing" in clauses:
-            clauses = clauses - {"ZONE_Grazing"}
-            key = "mpr:grazing-contact-position"
         elif "ZONE_SeparatingNotMinimal" in clauses:
             clauses = clauses - {"ZONE_SeparatingNotMinimal"}
             key = "epa:separating-not-minimal"
